@@ -70,7 +70,7 @@ fn dce_block_with_live(
                                 live.insert(u.clone());
                             }
                             // Keep side effects before the declaration in final order
-                            out.push(ast::Stmt::Expr(v));
+                            out.push(effect_stmt(v));
                         }
                         // Keep declaration without initializer
                         out.push(ast::Stmt::VarDecl {
@@ -95,7 +95,7 @@ fn dce_block_with_live(
                         for u in &used_rhs {
                             live.insert(u.clone());
                         }
-                        out.push(ast::Stmt::Expr(v));
+                        out.push(effect_stmt(v));
                     }
                 }
             }
@@ -116,7 +116,7 @@ fn dce_block_with_live(
                         for u in &used_rhs {
                             live.insert(u.clone());
                         }
-                        out.push(ast::Stmt::Expr(value));
+                        out.push(effect_stmt(value));
                     }
                 }
             }
@@ -591,6 +591,34 @@ fn free_vars_in_block(b: &ast::Block) -> HashSet<String> {
         }
     }
     &used - &declared
+}
+
+/// Go accepts only calls as expression statements, and not calls of value-only
+/// builtins or conversions (`append(v, x)`, `int32(len(v))`): the compiler rejects them
+/// with "... is not used".
+const GO_VALUE_ONLY_CALLEES: [&str; 16] = [
+    "append", "len", "cap", "make", "new", "int8", "int16", "int32", "int64", "uint8", "uint16",
+    "uint32", "uint64", "float32", "float64", "string",
+];
+
+/// Keep the effects of an initialiser whose variable was removed: as a bare statement
+/// when Go allows that, as `_ = <expr>` otherwise.
+fn effect_stmt(e: ast::Expr) -> ast::Stmt {
+    let bare_ok = match &e {
+        ast::Expr::Call { func, .. } => match func.as_ref() {
+            ast::Expr::Var { name, .. } => !GO_VALUE_ONLY_CALLEES.contains(&name.as_str()),
+            _ => true,
+        },
+        _ => false,
+    };
+    if bare_ok {
+        ast::Stmt::Expr(e)
+    } else {
+        ast::Stmt::Assignment {
+            name: "_".to_string(),
+            value: e,
+        }
+    }
 }
 
 fn expr_has_side_effects(e: &ast::Expr) -> bool {
